@@ -71,7 +71,8 @@ class Origin:
       ('phi', [alts])                           ('promoted', n)          ('yield',)
     """
 
-    def __init__(self, body, transparent_extra=(), max_depth=14, stop_at_vars=False):
+    def __init__(self, body, transparent_extra=(), max_depth=14, stop_at_vars=False, live=None):
+        self.live = live   # optional set of blocks: definitions outside it are ignored (specialisation to a set of paths)
         self.stop_at_vars = stop_at_vars
         self.body = body
         self.extra = tuple(transparent_extra)
@@ -133,6 +134,8 @@ class Origin:
         if self.stop_at_vars and (depth > 0 or seen) and b.varnames.get(l):
             return ('var', l, b.varnames[l][0])
         ds = [d for d in b.defs.get(l, []) if d[2] in ('assign', 'call', 'yield', 'passign', 'pcall')]
+        if self.live is not None:
+            ds = [d for d in ds if d[0] in self.live]
         if 1 <= l <= b.argc:
             alts = [('arg', l, b.local_name(l))]
         else:
